@@ -388,6 +388,9 @@ fn run_inst<T: Elem, C: ArrayLength + PartialEq>(ctx: &mut Ctx, rep: &mut Report
         |hist, op| {
             let mut full = hist.to_vec();
             full.push(op);
+            if !vx_core::util::crumb_bfs(|| json!({"module": "C19", "case": {"inst": inst, "ops": full}}).to_string()) {
+                return Bfs { key: None };
+            }
             let r = catch(|| {
                 let mut s = build(hist);
                 s.apply(oplist[op]);
@@ -449,9 +452,9 @@ macro_rules! insts {
     };
 }
 
-const N_INST: usize = 28;
+pub const N_INST: usize = 28;
 
-fn run_index(i: usize, ctx: &mut Ctx, rep: &mut Report, depth: usize) {
+pub fn run_index(i: usize, ctx: &mut Ctx, rep: &mut Report, depth: usize) {
     insts!(run_inst, i, ctx, rep, depth;
         (0, u8, U1), (1, u8, U5), (2, u8, U7), (3, u8, U16), (4, u8, U21), (5, u8, U32), (6, u8, U43),
         (7, u32, U1), (8, u32, U5), (9, u32, U7), (10, u32, U16), (11, u32, U21), (12, u32, U32), (13, u32, U43),
